@@ -29,6 +29,7 @@ func traceCmd(args []string) {
 	seed := fs.Uint64("seed", 1, "seed")
 	waterEvery := fs.Int("water-every", 25, "emit about one Water transition in this many")
 	nEvery := fs.Int("nitro-every", 0, "emit about one mineral/nmove transition in this many (0 = none)")
+	firstLine := fs.Int("first-line", 0, "number given to the first batch line (records and oracle lines carry line=<n>)")
 	fs.Parse(args)
 	defer stdout.Flush()
 	r := newRng(*seed)
@@ -37,7 +38,7 @@ func traceCmd(args []string) {
 		panic(err)
 	}
 	sc := bufio.NewScanner(f)
-	lineNo := 0
+	lineNo := *firstLine
 	for sc.Scan() {
 		line := sc.Text()
 		if len(line) == 0 {
